@@ -28,7 +28,12 @@ const char* verdict_name(int v);
 
 enum Strategy : int { S_RANDOM = 0, S_PCT = 1, S_STARVE = 2 };
 
-constexpr int MAXT = 24;
+// Threads per case. The default keeps per-cell bookkeeping small; a target that needs many threads (for example to
+// push babylon's per-thread ids across a 128-slot block) is built with -DDSCHED_MAXT=<n> (vf builds a matching engine).
+#ifndef DSCHED_MAXT
+#define DSCHED_MAXT 24
+#endif
+constexpr int MAXT = DSCHED_MAXT;
 constexpr uint16_t D_DEFAULT = 0xFFFF;
 
 struct Params {
@@ -75,8 +80,9 @@ Result* result_block();
 // was started has finished. Ends the process on any non-PASS verdict.
 void run(const Params&, const std::function<void()>& body);
 
-// Single-threaded set-up phases (pre-fill, epoch pump) may run unscheduled: no
-// schedule points, real atomics. Only legal while no other thread exists.
+// Set-up phases (pre-fill, epoch pump, long pre-histories) may run unscheduled: no schedule points, real atomics.
+// Legal while no other thread exists, or while every other thread is parked at a schedule point for the whole
+// phase (they hold no references into the runtime's tables); quiet_end() forgets every recorded atomic history.
 void quiet_begin();
 void quiet_end();
 
